@@ -65,7 +65,7 @@ def showRaw (r : List Raw) : String := if r = [] then "-" else ",".intercalate (
 def handle : List String → Option String
   | ["looprun", t, p, place, ins] => do
       let t ← t.toNat?; let p ← p.toNat?; let place ← parsePlace place; let ins ← parseInputs ins
-      some (showRaw ((run t (init p) ins).2.flatMap (lowerEv place)))
+      some (showRaw (lower place (run t (init p) ins).2))
   | ["chk", "c17.trace", _tag, t, p, place, raw] => do
       let t ← t.toNat?; let p ← p.toNat?; let place ← parsePlace place; let raw ← parseRaw raw
       some (toString (rawTraceOK t p place raw))
